@@ -362,6 +362,76 @@ def default_config_check(res: Result) -> None:
         res.violate(Violation(ID, "config", "default-not-zero", {"values": [], "k": -1, "stage": "config"}, f"DefaultConfig.max_typed_dict_size() = {d}"))
 
 
+def extra_stages(res: Result) -> None:
+    """(a) traces recorded under a larger limit, stub generated under a smaller one (top-level dict positions, where the
+    stub-time limit is what bounds the merge); (b) a generator yielding 6..7 dicts (one union member per yield), stubbed
+    through the default rewriter chain."""
+    import vfx.shapes as S
+    from monkeytype.stubs import build_module_stubs_from_traces
+    from monkeytype.tracing import CallTrace, trace_calls
+    from monkeytype.typing import DEFAULT_REWRITER, get_type
+
+    sk = V.string_key_dict
+    for n, m in itertools.product(range(1, 8), range(0, 4)):
+        vals = [V.ev(sk(n))] + ([V.ev(sk(m, "'a'", start=n - 1))] if m else [])
+        for k_rec in (3, 10, 200):
+            types = [get_type(v, k_rec) for v in vals]
+            for k_stub in (0, 1, 2, 3):
+                res.states += 1
+                res.transitions += 1
+                res.evaluations += 1
+                res.validated += 1
+                case = {"values": [sk(n)] + ([sk(m, "'a'", start=n - 1)] if m else []), "k": k_stub, "stage": "restub", "k_rec": k_rec}
+                try:
+                    traces = [CallTrace(S.mfunc, {"x": t}, t, None) for t in types]
+                    text = build_module_stubs_from_traces(traces, k_stub)["vfx.shapes"].render()
+                except Exception as e:  # noqa: BLE001
+                    res.violate(Violation(ID, "restub", "exception", case, f"raised {e!r}"))
+                    continue
+                why = check_stub_text(text, k_stub)
+                if why:
+                    res.violate(Violation(ID, "restub", why.partition("|")[0], case, f"recorded with limit {k_rec}, stubbed with limit {k_stub}: {why.partition('|')[2]} :: {text[:300]}"))
+    res.oblige("saw:restub-stage", True)
+    for k in KS:
+        for shape in ("distinct-keys", "two-keys", "shared-key", "few-keys-many-shapes", "four-keys-many-shapes"):
+            if shape == "few-keys-many-shapes":
+                dicts = [{n: v} for n in ("a", "b", "c") for v in (0, "s")]
+            elif shape == "four-keys-many-shapes":
+                dicts = [{n: v, "z": 1.5} for n in ("a", "b", "c") for v in (0, "s")] + [{"a": None}]
+            elif shape == "distinct-keys":
+                dicts = [{f"k{i}": i} for i in range(7)]
+            elif shape == "two-keys":
+                dicts = [{f"k{i}": i, f"k{i + 1}": "s"} for i in range(6)]
+            else:
+                dicts = [{"k0": i, f"x{i}": None} for i in range(6)]
+            logged: List[Any] = []
+
+            class L:
+                def log(self, t):
+                    logged.append(t)
+
+                def flush(self):
+                    pass
+
+            with trace_calls(L(), k, lambda code: code.co_filename == S.__file__):
+                list(S.yield_all(dicts))
+            res.states += 1
+            res.transitions += 1
+            res.evaluations += 1
+            res.validated += 1
+            case = {"values": [shape], "k": k, "stage": "generator"}
+            for rname, rw in (("default", DEFAULT_REWRITER), ("none", None)):
+                try:
+                    text = build_module_stubs_from_traces(logged, k, rewriter=rw)["vfx.shapes"].render()
+                except Exception as e:  # noqa: BLE001
+                    res.violate(Violation(ID, "generator", "exception", case, f"raised {e!r}"))
+                    continue
+                why = check_stub_text(text, k)
+                if why:
+                    res.violate(Violation(ID, "generator", why.partition("|")[0], case, f"generator yielding {len(dicts)} dicts, rewriter {rname}: {why.partition('|')[2]} :: {text[:400]}"))
+    res.oblige("saw:generator-stage", True)
+
+
 def run(ctx: Ctx) -> Result:
     ms = multisets()
     nshards = ctx.workers * 2
@@ -382,8 +452,9 @@ def run(ctx: Ctx) -> Result:
 
     res = run_shards(ctx, shard, list(range(nshards)))
     default_config_check(res)
+    extra_stages(res)
     res.bounds.update({"k": KS, "multisets": len(ms), "stages": STAGES, "max_keys": 12})
-    for o in ("saw:cli-stub-class", "saw:typed-dict-kept", "saw:typed-dict-collapsed-or-absent", "saw:stub-class", "saw:stub-nontotal-chain"):
+    for o in ("saw:restub-stage", "saw:generator-stage", "saw:cli-stub-class", "saw:typed-dict-kept", "saw:typed-dict-collapsed-or-absent", "saw:stub-class", "saw:stub-nontotal-chain"):
         res.obligations.setdefault(o, False)
     return res
 
@@ -392,6 +463,9 @@ def replay(case: Dict[str, Any], ctx: Ctx) -> List[Violation]:
     res = Result()
     if case.get("stage") == "config":
         default_config_check(res)
+    elif case.get("stage") in ("restub", "generator"):
+        extra_stages(res)
+        res.violations = [v for v in res.violations if v.case.get("stage") == case["stage"]]
     elif case.get("stage") == "cli":
         cli_stage(res, tuple(case["values"]), case["k"], str(ctx.tmp / "c06_replay.sqlite3"))
     else:
